@@ -1675,11 +1675,7 @@ fn process_stream_search_params<T: Read + Write>(
         }
         i += 1;
     }
-    let next_search_idx = if i < stream_msgs_len {
-        Some(i + 1)
-    } else {
-        None
-    };
+    let next_search_idx = if i < stream_msgs_len { Some(i) } else { None };
 
     debug!(
         log,
